@@ -324,10 +324,15 @@ pub struct Exploration<R> {
 }
 
 /// Explore all paths of `f` (up to the limits).  `f` is re-executed natively once per path.
-pub fn explore<R>(mut f: impl FnMut() -> R) -> Exploration<R> {
+pub fn explore<R>(f: impl FnMut() -> R) -> Exploration<R> {
+    explore_from(Witness::default(), f)
+}
+
+/// Like `explore`, but the first path follows the given witness.
+pub fn explore_from<R>(wit: Witness, mut f: impl FnMut() -> R) -> Exploration<R> {
     with(|c| {
         c.queue.clear();
-        c.queue.push_back(Item { lits: vec![], wit: Witness::default() });
+        c.queue.push_back(Item { lits: vec![], wit });
         c.active = true;
     });
     let mut paths = Vec::new();
